@@ -338,7 +338,7 @@ func (u *Unit) havocEffects(s *State, eff *effects) {
 		if !ok {
 			return
 		}
-		s.Heaps[k] = u.fresh(s, "H_"+k, h.Sort)
+		s.Heaps[k] = u.havocHeap(s, k, h)
 		_ = pre
 	}
 	if eff.all {
@@ -456,7 +456,7 @@ func (u *Unit) applyContract(s *State, f *Frame, x ssa.Value, callee *ssa.Functi
 			if !ok {
 				continue
 			}
-			nh := u.fresh(s, "H_"+k, h.Sort)
+			nh := u.havocHeap(s, k, h)
 			// frame assumption: pre-existing memory outside the modifies locations is unchanged
 			r := Leaf("r!m", "Int")
 			cond := Lt(r, preAlloc)
